@@ -24,6 +24,7 @@ type c16Case struct {
 	Reject   bool     `json:"reject"`
 	Part     string   `json:"partition"`
 	Prior    string   `json:"prior,omitempty"` // an earlier message on the same connection: "", "accepted", "refused"
+	Slow     bool     `json:"slow,omitempty"`  // the writer pauses for longer than the client's command timeout
 	concrete []byte
 }
 
@@ -93,6 +94,13 @@ func (c *c16Case) run(idx int, rng *rand.Rand) (string, error) {
 	}
 	cl.CommandTimeout = 3 * time.Second
 	cl.SubmissionTimeout = 3 * time.Second
+	pause := func() {}
+	if c.Slow {
+		// the time allowed for a command's reply is not a limit on how long the
+		// application may take to produce the message
+		cl.CommandTimeout = 150 * time.Millisecond
+		pause = func() { time.Sleep(260 * time.Millisecond) }
+	}
 	from := fmt.Sprintf("from%d@x.test", idx)
 	to := []string{fmt.Sprintf("to%d@x.test", idx), "second@x.test"}
 	res := make(chan string, 1)
@@ -134,6 +142,7 @@ func (c *c16Case) run(idx int, rng *rand.Rand) (string, error) {
 			return
 		}
 		body := c.concrete
+		pause()
 		switch c.Part {
 		case "whole":
 			w.Write(body)
@@ -145,6 +154,7 @@ func (c *c16Case) run(idx int, rng *rand.Rand) (string, error) {
 			if len(body) > 1 {
 				k := 1 + rng.Intn(len(body)-1)
 				w.Write(body[:k])
+				pause()
 				w.Write(body[k:])
 			} else {
 				w.Write(body)
@@ -269,7 +279,7 @@ func init() {
 		parts := []string{"whole", "split", "bytewise"}
 		var cases []*c16Case
 		for i, b := range bodies {
-			cases = append(cases, &c16Case{Body: b, Lmtp: i%4 == 1, Reject: i%3 == 1, Part: parts[i%3], Prior: []string{"", "", "accepted", "refused", "refused"}[i%5], concrete: c16Concrete(b, i)})
+			cases = append(cases, &c16Case{Body: b, Lmtp: i%4 == 1, Reject: i%3 == 1, Part: parts[i%3], Prior: []string{"", "", "accepted", "refused", "refused"}[i%5], Slow: i%97 == 5, concrete: c16Concrete(b, i)})
 			if len(b) <= 3 {
 				// short bodies: every combination
 				for _, lm := range []bool{false, true} {
